@@ -668,3 +668,144 @@ Proof. apply go_split_append_plain. reflexivity. Qed.
 Lemma go_split_prov_needs_path :
   go_split "http://host" = SOk "http" None "host" "" /\ go_split ("http://host" ++ ".prov") = SOk "http" None "host.prov" "".
 Proof. split; vm_compute; reflexivity. Qed.
+
+(* ------------------------------------------------------------------ the converse on normal forms *)
+(* a host[:port] in normal form for a scheme: lower-case name, brackets exactly around a name
+   that contains ':', and either no port or a port that is spelled without leading zero and is
+   not the scheme's default *)
+Definition nf_host (name port : string) : string :=
+  (if mem_byte ":" name then "[" ++ name ++ "]" else name) ++ (if String.eqb port "" then "" else ":" ++ port).
+
+Definition nf_ok (scheme name port : string) : bool :=
+  String.eqb (lower name) name
+  && (mem_byte ":" name || negb (starts_with "[" name))
+  && all_bytes is_digit port
+  && (String.eqb port "" || (negb (String.eqb port (default_port scheme)) && String.eqb (strip_zeros port) port)).
+
+Lemma digits_no_colon p : all_bytes is_digit p = true -> mem_byte ":" p = false.
+Proof. intro H. eapply all_bytes_not_mem; [exact H|reflexivity]. Qed.
+
+Lemma not_digits_bracket y : all_bytes is_digit (y ++ "]") = false.
+Proof. rewrite all_bytes_app. simpl. rewrite andb_false_r. reflexivity. Qed.
+
+Lemma cut_last_app_nomem c a b x y :
+  cut_last c a = Some (x, y) -> mem_byte c b = false -> cut_last c (a ++ b) = Some (x, y ++ b).
+Proof.
+  revert x y. induction a as [|d a IH]; simpl; [discriminate|].
+  intros x y. destruct (cut_last c a) as [[x0 y0]|] eqn:E.
+  - intros H Hb. injection H as <- <-. rewrite (IH _ _ eq_refl Hb). reflexivity.
+  - destruct (Ascii.eqb d c) eqn:Ed; [|discriminate].
+    intros H Hb. injection H as <- <-.
+    assert (cut_last c (a ++ b) = None) as ->.
+    { apply cut_last_nomem. rewrite mem_byte_app, Hb, orb_false_r.
+      clear -E. induction a as [|z a IHa]; [reflexivity|]. simpl in *.
+      destruct (cut_last c a) as [[? ?]|]; [discriminate|]. destruct (Ascii.eqb z c); [discriminate|]. simpl. auto. }
+    reflexivity.
+Qed.
+
+Lemma mem_cut_last_some c s : mem_byte c s = true -> exists x y, cut_last c s = Some (x, y).
+Proof.
+  induction s as [|d s IH]; simpl; [discriminate|].
+  destruct (cut_last c s) as [[x y]|] eqn:E; [eauto|].
+  destruct (Ascii.eqb d c) eqn:Ed; [eauto|]. simpl. intro H. destruct (IH H) as (x & y & E'). discriminate.
+Qed.
+
+Lemma substring_all n s : substring 0 (String.length s) (s ++ n) = s.
+Proof. induction s as [|c s IH]; simpl; [destruct n; reflexivity|]. rewrite IH. reflexivity. Qed.
+
+Lemma length_app_s a b : String.length (a ++ b) = String.length a + String.length b.
+Proof. induction a as [|c a IH]; simpl; [reflexivity|]. rewrite IH. reflexivity. Qed.
+
+Lemma drop_brackets_wrapped name : drop_brackets ("[" ++ name ++ "]") = name.
+Proof.
+  unfold drop_brackets.
+  assert (E : cut_last "]" ("[" ++ name ++ "]") = Some ("[" ++ name, "")).
+  { change ("[" ++ name ++ "]") with (("[" ++ name) ++ String "]" ""). apply cut_last_app. reflexivity. }
+  rewrite E. change (starts_with "[" ("[" ++ name ++ "]")) with (String.prefix "[" ("[" ++ (name ++ "]"))).
+  rewrite prefix_app. cbn [andb].
+  change ("[" ++ name ++ "]") with (String "[" (name ++ "]")).
+  cbn [String.length substring]. rewrite length_app_s. simpl String.length.
+  replace (S (String.length name + 1) - 2) with (String.length name) by lia.
+  apply substring_all.
+Qed.
+
+Lemma drop_brackets_plain name : starts_with "[" name = false -> drop_brackets name = name.
+Proof. unfold drop_brackets. intros ->. reflexivity. Qed.
+
+(* URL.Hostname() / URL.Port() of a host in normal form *)
+Lemma split_nf scheme name port :
+  nf_ok scheme name port = true ->
+  hostname (nf_host name port) = name /\ port_of (nf_host name port) = port.
+Proof.
+  unfold nf_ok. intro H. apply andb_true_iff in H as [H Hp]. apply andb_true_iff in H as [H Hd].
+  apply andb_true_iff in H as [_ Hb].
+  unfold hostname, port_of, split_host_port, nf_host.
+  destruct (String.eqb port "") eqn:Ep.
+  - apply String.eqb_eq in Ep. subst port. rewrite app_nil_r_s.
+    destruct (mem_byte ":" name) eqn:Em.
+    + destruct (mem_cut_last_some _ _ Em) as (x & y & E).
+      assert (E' : cut_last ":" ("[" ++ name ++ "]") = Some (String "[" x, y ++ "]")).
+      { change ("[" ++ name ++ "]") with (String "[" (name ++ "]")). simpl.
+        rewrite (cut_last_app_nomem _ _ "]" _ _ E eq_refl). reflexivity. }
+      rewrite E', not_digits_bracket. cbn [fst snd]. rewrite drop_brackets_wrapped. auto.
+    + rewrite (cut_last_nomem _ _ Em). cbn [fst snd]. simpl in Hb. rewrite drop_brackets_plain by (apply negb_true_iff; exact Hb). auto.
+  - assert (Hc : mem_byte ":" port = false) by (apply digits_no_colon; exact Hd).
+    change (":" ++ port) with (String ":" port).
+    destruct (mem_byte ":" name) eqn:Em.
+    + rewrite (cut_last_app ":" ("[" ++ name ++ "]") port Hc), Hd. cbn [fst snd]. rewrite drop_brackets_wrapped. auto.
+    + rewrite (cut_last_app ":" name port Hc), Hd. cbn [fst snd]. simpl in Hb.
+      rewrite drop_brackets_plain by (apply negb_true_iff; exact Hb). auto.
+Qed.
+
+(* on normal forms the property's origin determines the Host string: equal origin implies the
+   byte-for-byte equality the code tests *)
+Theorem origin_nf_converse scheme sc2 n1 p1 n2 p2 path1 path2 us1 us2 s1 s2 :
+  nf_ok scheme n1 p1 = true -> nf_ok sc2 n2 p2 = true ->
+  origin_of (mkUrl scheme (nf_host n1 p1) path1 us1 s1) = origin_of (mkUrl sc2 (nf_host n2 p2) path2 us2 s2) ->
+  same_origin (mkUrl scheme (nf_host n1 p1) path1 us1 s1) (mkUrl sc2 (nf_host n2 p2) path2 us2 s2) = true.
+Proof.
+  intros H1 H2 Ho.
+  assert (sc2 = scheme) as -> by (unfold origin_of in Ho; cbn [u_scheme] in Ho; congruence).
+  destruct (split_nf _ _ _ H1) as [Hn1 Hp1]. destruct (split_nf _ _ _ H2) as [Hn2 Hp2].
+  unfold origin_of in Ho. cbn [u_scheme u_host] in Ho. rewrite Hn1, Hn2, Hp1, Hp2 in Ho.
+  injection Ho as Hname Hport.
+  unfold nf_ok in H1, H2.
+  apply andb_true_iff in H1 as [H1 Hq1]. apply andb_true_iff in H1 as [H1 _]. apply andb_true_iff in H1 as [Hl1 _].
+  apply andb_true_iff in H2 as [H2 Hq2]. apply andb_true_iff in H2 as [H2 _]. apply andb_true_iff in H2 as [Hl2 _].
+  apply String.eqb_eq in Hl1, Hl2. rewrite Hl1, Hl2 in Hname. subst n2.
+  assert (p1 = p2) as ->.
+  { destruct (String.eqb p1 "") eqn:E1; destruct (String.eqb p2 "") eqn:E2; cbn [orb] in Hq1, Hq2.
+    - apply String.eqb_eq in E1, E2. congruence.
+    - apply String.eqb_eq in E1. subst p1. simpl in Hport.
+      apply andb_true_iff in Hq2 as [Hnd Hz]. apply String.eqb_eq in Hz. rewrite Hz, E2 in Hport.
+      apply negb_true_iff, String.eqb_neq in Hnd. congruence.
+    - apply String.eqb_eq in E2. subst p2. simpl in Hport.
+      apply andb_true_iff in Hq1 as [Hnd Hz]. apply String.eqb_eq in Hz. rewrite Hz, E1 in Hport.
+      apply negb_true_iff, String.eqb_neq in Hnd. congruence.
+    - apply andb_true_iff in Hq1 as [_ Hz1]. apply andb_true_iff in Hq2 as [_ Hz2].
+      apply String.eqb_eq in Hz1, Hz2. rewrite Hz1, Hz2, E1, E2 in Hport. exact Hport. }
+  unfold same_origin. cbn [u_scheme u_host]. rewrite !String.eqb_refl. reflexivity.
+Qed.
+
+(* with credentials configured, a request to the repository's origin spelled in normal form
+   does get the pair *)
+Theorem getter_same_origin_attached_nf (parse : string -> option url) o href sc1 sc2 n1 p1 n2 p2 path1 path2 us1 us2 s1 s2 :
+  parse (g_url o) = Some (mkUrl sc1 (nf_host n1 p1) path1 us1 s1) ->
+  parse href = Some (mkUrl sc2 (nf_host n2 p2) path2 us2 s2) ->
+  nf_ok sc1 n1 p1 = true -> nf_ok sc2 n2 p2 = true ->
+  origin_of (mkUrl sc1 (nf_host n1 p1) path1 us1 s1) = origin_of (mkUrl sc2 (nf_host n2 p2) path2 us2 s2) ->
+  g_user o <> "" -> g_pass o <> "" ->
+  getter_get parse o href = GReq (Some (Cred (g_user o) (g_pass o) (g_src o))).
+Proof.
+  intros E1 E2 N1 N2 Ho Hu Hp. apply getter_get_auth_iff.
+  eexists. eexists. split; [exact E1|]. split; [exact E2|].
+  pose proof (origin_nf_converse _ _ _ _ _ _ path1 path2 us1 us2 s1 s2 N1 N2 Ho) as Hs.
+  apply same_origin_true in Hs. auto.
+Qed.
+
+Example nf_examples :
+  nf_ok "https" "repo.example" "8443" = true /\ nf_ok "http" "repo.example" "" = true /\ nf_ok "http" "::1" "8080" = true /\
+  nf_ok "http" "repo.example" "80" = false /\ nf_ok "http" "Repo.example" "" = false /\ nf_ok "http" "repo.example" "080" = false /\
+  valid_host (nf_host "repo.example" "8443") = true /\ valid_host (nf_host "::1" "8080") = true /\
+  nf_host "::1" "8080" = "[::1]:8080".
+Proof. vm_compute. repeat split. Qed.
